@@ -16,7 +16,7 @@ use fbh::classfile::{asm, corpus, gen, raw};
 use fbh::gal::*;
 use fbh::mapmodel::S;
 use fbh::prng::Rng;
-use fbh::report::{guarded, Report};
+use fbh::report::{crumb, guarded, Report};
 use std::collections::{BTreeMap, HashMap, HashSet};
 use std::panic::AssertUnwindSafe;
 
@@ -312,7 +312,7 @@ pub fn run_rich(r: &mut Report, rng: &mut Rng, jars: usize) {
 	let mut groups: BTreeMap<String, Vec<Rich>> = BTreeMap::new();
 	for (path, bytes) in corpus::corpus_classes() {
 		let parts: Vec<&str> = path.split('/').collect();
-		let root = if parts[0] == "sample" || parts[0] == "crafted" { parts[..2.min(parts.len())].join("/") } else { parts[0].to_owned() };
+		let root = if parts[0] == "sample" || (parts[0] == "crafted" && parts.len() > 2) { parts[..2.min(parts.len())].join("/") } else { parts[0].to_owned() };
 		match rich_of(format!("corpus/classes/{path}"), bytes) { Some(c) => groups.entry(root).or_default().push(c), None => r.count("rich:corpus class not usable (independent parser rejects it or name not expressible)") }
 	}
 	let roots: Vec<String> = groups.iter().filter(|(_, v)| v.len() >= 2).map(|(k, _)| k.clone()).collect();
@@ -322,19 +322,26 @@ pub fn run_rich(r: &mut Report, rng: &mut Rng, jars: usize) {
 	let mut pending_noted = false;
 	for jar_no in 0..jars {
 		// ---- the jar
-		let root = if jar_no % 4 == 0 { rng.pick(&["r17", "r11", "r8"][..]).to_string() } else { rng.pick(&roots[..]).clone() };
+		// jar 1 of every run is built around crafted/All (every loadable constant kind incl. CONSTANT_Dynamic, method handles of
+		// every reference kind), jar 2 around crafted/Attrs
+		let crafted = match jar_no { 1 => Some("crafted/All.class"), 2 => Some("crafted/Attrs.class"), _ => None }.filter(|_| groups.get("crafted").map_or(false, |g| g.len() >= 2));
+		// jars 3, 5, 7 of every run (ten classes each, all thirty together): the vendored gen_class outputs (StackMapTable frames with every verification type,
+		// method handles of every reference kind, attributes at every level)
+		let vendored_gen = matches!(jar_no, 3 | 5 | 7) && groups.get("crafted/gen").map_or(false, |g| g.len() >= 2);
+		let root = if crafted.is_some() { "crafted".to_string() } else if vendored_gen { "crafted/gen".to_string() } else if jar_no % 4 == 0 { rng.pick(&["r17", "r11", "r8"][..]).to_string() } else { rng.pick(&roots[..]).clone() };
 		let Some(group) = groups.get(&root).filter(|g| g.len() >= 2) else { continue };
 		// classes that refer to each other: start anywhere, then prefer classes that mention / are mentioned by a chosen one
-		let mut idx: Vec<usize> = vec![rng.below(group.len())];
+		let first = crafted.and_then(|c| group.iter().position(|x| x.origin.ends_with(c))).unwrap_or_else(|| rng.below(group.len()));
+		let mut idx: Vec<usize> = if vendored_gen { let k = (jar_no - 3) / 2 * 10; (0..10).map(|i| (k + i) % group.len()).collect() } else { vec![first] };
 		while idx.len() < group.len().min(10) {
 			let related: Vec<usize> = (0..group.len()).filter(|i| !idx.contains(i) && idx.iter().any(|&k| group[k].mentions.contains(&group[*i].name) || group[*i].mentions.contains(&group[k].name))).collect();
 			let next = if !related.is_empty() && rng.chance(4, 5) { *rng.pick(&related[..]) } else { rng.below(group.len()) };
 			if !idx.contains(&next) { idx.push(next); } else if related.is_empty() && idx.len() + 1 >= group.len() { break; }
 		}
-		let want_n = rng.range(2, 7);
+		let want_n = if vendored_gen { 10 } else { rng.range(2, 7) };
 		let mut gens: Vec<Rich> = vec![];
-		if jar_no % 3 == 0 {
-			for g in 0..rng.range(1, 2) {
+		if jar_no % 2 == 0 {
+			for g in 0..rng.range(1, 3) {
 				let spec = gen::gen_class(rng, &cfg);
 				if let Ok(bytes) = asm::try_assemble(&spec, &asm::Knobs::default()) { if let Some(c) = rich_of(format!("gen_class #{jar_no}.{g}"), bytes) { gens.push(c); } }
 			}
@@ -390,6 +397,7 @@ pub fn run_rich(r: &mut Report, rng: &mut Rng, jars: usize) {
 		r.count("rich:jars");
 		r.count(&format!("rich:jar_from_{}", root.split('/').next().unwrap_or("?")));
 		r.eval_distinct(!rn.applied.is_empty());
+		crumb(&replay("the harness process died while nest_jar worked on this jar of rich classes (no value, no error)", remap, &classes, &order, &t, ""));
 		let out = match impl_nest_jar_raw(remap, input, nests) {
 			Err(p) => { let what = format!("nest_jar panicked on a jar of rich classes: {p}"); r.violation(what.clone(), replay(&what, remap, &classes, &order, &t, "")); continue; }
 			Ok(None) => { let what = "nest_jar returned Err on a jar of classes that duke reads, with an acyclic table".to_string(); r.violation(what.clone(), replay(&what, remap, &classes, &order, &t, "")); continue; }
